@@ -16,6 +16,9 @@ type ScaleStep struct {
 	W    int        `json:"w"`
 	H    int        `json:"h"`
 	Fill *ColorSpec `json:"fill,omitempty"` // nil: barcode.Scale (default fill)
+	// Sibling: scale the barcode the current one was made from once more (a second, different scaling of the same
+	// parent) instead of the current one; the earlier results must stay what they were
+	Sibling bool `json:"sibling,omitempty"`
 }
 
 type ScaleCase struct {
@@ -30,6 +33,32 @@ type scaleOutcome struct {
 	factorMax  int
 	hadMargin  bool
 	chainDepth int
+	siblings   int
+}
+
+// pixelHash reads every pixel and the accessors of a barcode (snapshot comparison of earlier results).
+func pixelHash(bc barcode.Barcode) uint64 {
+	h := uint64(1469598103934665603)
+	mix := func(v uint32) {
+		h ^= uint64(v)
+		h *= 1099511628211
+	}
+	b := bc.Bounds()
+	mix(uint32(b.Dx()))
+	mix(uint32(b.Dy()))
+	for y := b.Min.Y; y < b.Max.Y; y++ {
+		for x := b.Min.X; x < b.Max.X; x++ {
+			r, g, bl, a := bc.At(x, y).RGBA()
+			mix(r)
+			mix(g)
+			mix(bl)
+			mix(a)
+		}
+	}
+	for _, ch := range bc.Content() + "|" + bc.Metadata().CodeKind {
+		mix(uint32(ch))
+	}
+	return h
 }
 
 // checkScaleStep verifies one scaling of src; returns the result (nil when an error was expected and returned).
@@ -171,6 +200,17 @@ func checkScaleStep(t TB, c any, src barcode.Barcode, st ScaleStep, depth int) (
 	if firstMsg != "" {
 		failf(t, P, K, c, "depth %d: %dx%d %dD source scaled to %dx%d: %s", depth, W, H, dims, st.W, st.H, firstMsg)
 	}
+	var aerr error
+	if pv := try(func() {
+		if st.W*st.H <= 300000 {
+			aerr = accessorsAgree(res)
+		}
+	}); pv != nil {
+		failf(t, P, K, c, "depth %d: reading the result through RGBA64At / image/draw: %v", depth, pv)
+	}
+	if aerr != nil {
+		failf(t, P, K, c, "depth %d: %dx%d result: %v", depth, st.W, st.H, aerr)
+	}
 	if res.Content() != src.Content() {
 		failf(t, P, K, c, "depth %d: Content() %q differs from the source's %q", depth, res.Content(), src.Content())
 	}
@@ -201,8 +241,34 @@ func checkScale(t TB, c ScaleCase) scaleOutcome {
 	}
 	out.ok = true
 	cur := src
+	var parent barcode.Barcode
+	type made struct {
+		bc   barcode.Barcode
+		hash uint64
+		step int
+	}
+	var results []made
+	verifyEarlier := func(after int) {
+		for _, m := range results {
+			if m.step == after {
+				continue
+			}
+			var h uint64
+			if pv := try(func() { h = pixelHash(m.bc) }); pv != nil {
+				failf(t, "C09", "scale", c, "reading the result of step %d again after step %d: %v", m.step, after, pv)
+			}
+			if h != m.hash {
+				failf(t, "C09", "scale", c, "the image returned by step %d is no longer what it was once step %d had been made (an earlier result is not a snapshot)", m.step, min(after, len(c.Steps)-1))
+			}
+		}
+	}
 	for depth, st := range c.Steps {
-		res, f, margin := checkScaleStep(t, c, cur, st, depth)
+		from := cur
+		if st.Sibling && parent != nil {
+			from = parent
+			out.siblings++
+		}
+		res, f, margin := checkScaleStep(t, c, from, st, depth)
 		if res == nil {
 			out.errors++
 			continue // an error leaves the chain where it was
@@ -213,7 +279,18 @@ func checkScale(t TB, c ScaleCase) scaleOutcome {
 			out.factorMax = f
 		}
 		out.hadMargin = out.hadMargin || margin
+		if b := res.Bounds(); b.Dx()*b.Dy() <= 150000 {
+			results = append(results, made{res, pixelHash(res), depth})
+		}
+		if st.Sibling && from == parent {
+			verifyEarlier(depth)
+		} else {
+			parent = cur
+		}
 		cur = res
+	}
+	if len(results) > 1 {
+		verifyEarlier(len(c.Steps))
 	}
 	return out
 }
@@ -231,9 +308,24 @@ func genScaleCase(t *rapid.T) ScaleCase {
 		W, H, dims = bc.Bounds().Dx(), bc.Bounds().Dy(), int(bc.Metadata().Dimensions)
 	}
 	n := rapid.IntRange(1, 4).Draw(t, "nsteps")
+	deep := rapid.IntRange(0, 4).Draw(t, "deep") == 0
+	huge := !deep && rapid.IntRange(0, 39).Draw(t, "huge") == 0
+	budget := 600000
+	if huge {
+		budget = 2000000
+	}
+	if deep { // long chains of small enlargements with second scalings of the same parent in between
+		n = rapid.IntRange(4, 9).Draw(t, "ndeep")
+	}
 	for i := 0; i < n; i++ {
 		var st ScaleStep
 		pick := func(base int, label string) int {
+			if deep && base > 40 {
+				return base + rapid.IntRange(0, 3).Draw(t, label+"grow")
+			}
+			if huge && i == 0 { // print-sized enlargement: factors 20..130 (arithmetic that is exact only for small factors)
+				return base*rapid.IntRange(20, 130).Draw(t, label+"hugef") + rapid.IntRange(0, 40).Draw(t, label+"hugem")
+			}
 			switch rapid.IntRange(0, 7).Draw(t, label+"k") {
 			case 0:
 				return rapid.IntRange(1, base).Draw(t, label+"small") // too small or exact
@@ -260,13 +352,16 @@ func genScaleCase(t *rapid.T) ScaleCase {
 			st.H = 1
 		}
 		// keep the pixel budget bounded
-		for st.W*st.H > 600000 {
+		for st.W*st.H > budget {
 			st.W = st.W*2/3 + 1
 			st.H = st.H*2/3 + 1
 		}
 		if rapid.Bool().Draw(t, "withfill") {
 			f := genColorSpec(t, rapid.SampledFrom([]string{"gray", "gray16", "rgba", "nrgba", "cmyk"}).Draw(t, "fm"), "fill")
 			st.Fill = &f
+		}
+		if i > 0 && rapid.IntRange(0, 3).Draw(t, "sibling") == 0 {
+			st.Sibling = true // scales the previous parent: the size bookkeeping below is then only approximate
 		}
 		c.Steps = append(c.Steps, st)
 		// following steps scale the result
@@ -291,6 +386,18 @@ func c09Account(st *Stats, c ScaleCase, o scaleOutcome) {
 	st.Cover("source_families", c.Source.Label())
 	if o.chainDepth >= 2 {
 		st.Class("chain of >= 2 scalings")
+	}
+	if o.chainDepth >= 5 {
+		st.Class("chain of >= 5 scalings")
+	}
+	if o.factorMax >= 20 {
+		st.Class("enlargement by a factor >= 20")
+	}
+	if o.factorMax >= 62 {
+		st.Class("enlargement by a factor >= 62")
+	}
+	if o.siblings > 0 {
+		st.Class("history with a second scaling of the same parent (earlier results re-read afterwards)")
 	}
 	if o.successes > 0 && (o.factorMax >= 2 || o.hadMargin) {
 		st.NonTrivial(H(fmt.Sprintf("%+v", c)))
